@@ -3,3 +3,4 @@ import MpdSpec.Tokenizer
 import MpdSpec.Grammar
 import MpdSpec.FrameSpec
 import MpdSpec.Listing
+import MpdSpec.FilterParse
